@@ -7,7 +7,7 @@ Trace == ndJsonDeserialize(IOEnv.TRACE)
 VARIABLES l, L, mode
 vars == <<l, L, mode>>
 
-Init == l = 1 /\ L = LInit(TRUE, 0, 0, FALSE, 0) /\ mode = "none" /\ TLCSet(1, 1)
+Init == l = 1 /\ L = LInit(TRUE, 0, 0, "", 0) /\ mode = "none" /\ TLCSet(1, 1)
 
 StepOK(ev) ==
   CASE ev.ev = "reset" /\ ev.ctor = "lifecycle" -> TRUE
@@ -24,19 +24,21 @@ StepOK(ev) ==
                      [] ev.op = "advance" -> LAdvance(L, ev.d)
                      [] ev.op = "get" -> LGet(L, ev.k)
                      [] ev.op = "deleteexpired" -> LDeleteExpired(L)
+                     [] ev.op = "setcb" -> LSetCb(L, ev.k)
                      [] OTHER -> L
          IN ObserveOK(L1, ev.x, ev.evs)
     [] OTHER -> FALSE
 
 StepNext(ev) ==
   CASE ev.ev = "reset" /\ ev.ctor = "lifecycle" -> L
-    [] ev.ev = "reset" -> LInit(ev.hasintv, ev.intv, ev.defexp, ev.cb # "", ev.now)
+    [] ev.ev = "reset" -> LInit(ev.hasintv, ev.intv, ev.defexp, ev.cb, ev.now)
     [] ev.ev = "life" /\ ev.op \in {"created", "collected"} -> L
     [] ev.ev = "life" ->
          LObserved(CASE ev.op = "set" -> LSet(L, ev.k, ev.d)
                      [] ev.op = "advance" -> LAdvance(L, ev.d)
                      [] ev.op = "get" -> LGet(L, ev.k)
                      [] ev.op = "deleteexpired" -> LDeleteExpired(L)
+                     [] ev.op = "setcb" -> LSetCb(L, ev.k)
                      [] OTHER -> L)
     [] OTHER -> L
 
